@@ -685,9 +685,20 @@ class Request(interfaces.Request, BaseUnicastRequest):
 
         self._stop_interest = self._pipe.on_event(process)
 
+        if self.observation is not None:
+            self.observation.on_cancel(self._observation_cancelled)
+
         self.log = log
 
         self.response.add_done_callback(self._response_cancellation_handler)
+
+    def _observation_cancelled(self):
+        # A cancelled observation takes effect right away, so that already the
+        # next notification is rejected as RFC 7641 Section 3.6 has it. Before
+        # the first response, the token is still needed for that; the runner
+        # drops it when it has seen that.
+        if self.response.done() and not self.response.cancelled():
+            self._stop_interest()
 
     def _response_cancellation_handler(self, response):
         # Propagate cancellation to the runner (if interest in the first
@@ -766,6 +777,11 @@ class Request(interfaces.Request, BaseUnicastRequest):
             self._stop_interest()
             return
 
+        if self.observation.cancelled:
+            # cancelled while the first response was still needed
+            self._stop_interest()
+            return
+
         # variable names from RFC7641 Section 3.4
         v1 = first_event.message.opt.observe
         t1 = time.time()
@@ -838,6 +854,11 @@ class Request(interfaces.Request, BaseUnicastRequest):
                     " do with them, stopping any further request."
                 )
                 self._stop_interest()
+                return
+
+            if self.observation.cancelled:
+                # The application cancelled from inside the callback just
+                # run; _observation_cancelled already dropped the interest.
                 return
 
 
@@ -1054,9 +1075,16 @@ class BlockwiseRequest(BaseUnicastRequest, interfaces.Request):
         # block1 as a reference for now, especially because in the
         # only-one-request-block case, that's the original request we must send
         # again and again anyway
-        assembled_response = await cls._complete_by_requesting_block2(
-            protocol, current_block1, blockresponse, log
-        )
+        try:
+            assembled_response = await cls._complete_by_requesting_block2(
+                protocol, current_block1, blockresponse, log
+            )
+        except BaseException:
+            # The observation ends with this error (see _run_outer); the one
+            # that is established on the wire must not outlive it.
+            if lower_observation is not None and not lower_observation.cancelled:
+                lower_observation.cancel()
+            raise
 
         response.set_result(assembled_response)
         # finally set the result
